@@ -71,11 +71,14 @@ func (r *ResponseRecorder) WriteHeader(status int) {
 }
 
 // Write is a wrapper that records the size of the body
-// that gets written.
+// that gets written: the bytes the underlying writer
+// accepted, also when it reports an error (a Write that
+// the client's disconnect cuts short returns n > 0
+// together with the error).
 func (r *ResponseRecorder) Write(buf []byte) (int, error) {
 	r.wroteHeader = true
 	n, err := r.ResponseWriterWrapper.Write(buf)
-	if err == nil {
+	if n > 0 {
 		r.size += n
 	}
 	return n, err
